@@ -176,10 +176,11 @@ def make_pub(txt):
 
 
 class Gen:
-    def __init__(self, repo, template_path, canary=False):
+    def __init__(self, repo, template_path, canary=False, relaxed=()):
         self.repo = repo
         self.tpath = template_path
         self.canary = canary
+        self.relaxed = set(relaxed)
         self.files = {}
         self.out = []          # lines
         self.fns = []          # function records
@@ -407,6 +408,10 @@ class Gen:
                 raise Undecided('template error: unknown directive %s' % t)
             contract.append(bl)
             continue
+        if label in self.relaxed:
+            # relaxed regeneration (see run.verify_unit): the body changed shape, so position-based closure / loop /
+            # ghost annotations no longer apply; they are dropped and the function is verified without them
+            closures, loops, ghosts, hoist = {}, {}, [], {}
         for a, b in hsubsts:
             if a not in hdr:
                 raise Undecided('signature drift: header text %r not found in fn %s' % (a, label))
@@ -621,7 +626,7 @@ class Gen:
         self.fns.append(rec)
 
 
-def generate(repo, template_path, canary=False):
-    g = Gen(repo, template_path, canary)
+def generate(repo, template_path, canary=False, relaxed=()):
+    g = Gen(repo, template_path, canary, relaxed)
     text = g.run()
     return g, text
